@@ -592,9 +592,11 @@ def ThermalRelaxationNoise(
             ]
         )
 
-        eigvals, eigvecs = la.eig(choi_matrix)
-        d_matrix = np.sqrt(np.diag(eigvals))
-        res = np.dot(np.dot(eigvecs, d_matrix), la.inv(eigvecs))
+        # The Choi matrix is real symmetric and positive semidefinite: use eigh
+        # (real output) and clip the rounding noise of vanishing eigenvalues.
+        eigvals, eigvecs = la.eigh(choi_matrix)
+        d_matrix = np.sqrt(np.diag(np.clip(eigvals, 0.0, None)))
+        res = np.dot(np.dot(eigvecs, d_matrix), eigvecs.T)
 
         return (
             np.transpose(res[:, 0].reshape(2, 2)).tolist(),
